@@ -177,6 +177,23 @@ func main() {
 				}
 			}
 		}
+		// after an armoring whose destination failed at write call k (with or without a partial count), a later armoring is unaffected
+		if c.Shard == 0 {
+			for _, n := range []int{1, 48, 100, 300} {
+				for k := 0; k < 12; k++ {
+					for _, partial := range []bool{false, true} {
+						fw := &failingWriter{failAt: k, partial: partial}
+						w := armor.NewWriter(fw)
+						w.Write(lab.Plain(n, 3))
+						w.Close()
+						for rep := 0; rep < 2; rep++ {
+							d2 := lab.Plain(60+rep, 4)
+							checkEnc(fmt.Sprintf("after-failed-write.n%d.k%d.p%v.r%d", n, k, partial, rep), d2, []int{len(d2)})
+						}
+					}
+				}
+			}
+		}
 		c.Sample(map[string]interface{}{"data_len": 49, "write_schedule": "[1 47 1]"})
 
 		// ------------------------------------------------ decoding side: line structures
@@ -374,4 +391,21 @@ func classify(t string) string {
 		return "empty-line"
 	}
 	return "other"
+}
+
+type failingWriter struct {
+	failAt  int
+	partial bool
+	calls   int
+}
+
+func (w *failingWriter) Write(p []byte) (int, error) {
+	w.calls++
+	if w.calls > w.failAt {
+		if w.partial {
+			return len(p) / 2, io.ErrClosedPipe
+		}
+		return 0, io.ErrClosedPipe
+	}
+	return len(p), nil
 }
